@@ -33,6 +33,7 @@ import json
 import multiprocessing
 import os
 import random
+import threading
 from concurrent.futures import ThreadPoolExecutor
 
 import c15_proj as J
@@ -40,6 +41,20 @@ import tlc
 from common import MachineryError, rng
 
 READY = True
+
+import contextlib
+import time
+
+_PHASES = collections.OrderedDict()
+
+
+@contextlib.contextmanager
+def phase(name):
+    t = time.time()
+    try:
+        yield
+    finally:
+        _PHASES[name] = round(_PHASES.get(name, 0) + time.time() - t, 1)
 
 INVARIANTS = ["TypeOK", "HistoryIndependent", "NoLeftover", "SameInterface", "NetsWellFormed"]
 BUGS = {"RTL": ["wr_typo", "reads_kept", "signals_kept", "boundary_connection_lost",
@@ -102,7 +117,8 @@ def _write_input(d, name, obj):
 
 def model_check(res, fam, model, sc, scratch):
     inp = _write_input(scratch, "model_%s_%s.json" % (fam.name, sc["name"]), model_input(fam, model, sc))
-    r = tlc.run("Replace", cfg_text=cfg_text(sc), env={"VERIF_INPUT": inp}, coverage=True, timeout=3600)
+    r = tlc.run("Replace", cfg_text=cfg_text(sc), env={"VERIF_INPUT": inp}, coverage=True, timeout=3600,
+                workers=max(2, (os.cpu_count() or 4) // 4))
     res.add_tlc(r)
     if r.violated:
         raise MachineryError("Replace.tla violates %s in scenario %s/%s (the specification itself is not "
@@ -178,6 +194,7 @@ class Replayer:
         self.inputs = inputs
         self.pool = multiprocessing.get_context("fork").Pool(os.cpu_count() or 4)
         self.table = {}
+        self.fresh_traces = {}
 
     def close(self):
         self.pool.terminate()
@@ -287,8 +304,13 @@ class Findings:
     def __init__(self):
         self.best = {}
         self.count = collections.Counter()
+        self.lock = threading.Lock()
 
     def add(self, key, what, rec, extra):
+        with self.lock:
+            self._add(key, what, rec, extra)
+
+    def _add(self, key, what, rec, extra):
         self.count[key] += 1
         rank = (len(rec["steps"]), json.dumps(rec["steps"]), json.dumps(rec["init"], sort_keys=True))
         if key not in self.best or rank < self.best[key][0]:
@@ -341,9 +363,15 @@ def judge(F, rec, tlc_verdict=None):
                       % (h, c["step"], x["object"], x["path"]), rec, {"step": c["step"], "path": x["path"], "object": x["object"]})
     s = rec["sim"]
     if s:
+        last = [c for c in rec["checks"] if c["step"] == len(rec["steps"])]
+        mk = sorted({J.finding_key(cat, f, kind) for c in last for (cat, f, kind, es) in c["findings"]})
         if s["kind"] == "differs":
-            F.add("sim-differs", "%s: simulation differs from the design built from scratch at cycle %d: %s vs %s"
-                  % (h, s["cycle"], s["replaced"], s["fresh"]), rec, {"sim": s})
+            # a difference in behaviour next to a metadata difference of the same design is its
+            # consequence (reported under the metadata key as well); without one it stands alone
+            F.add("sim-differs:metadata-%s" % ("differs" if mk else "equal" if last else "not-compared"),
+                  "%s: simulation differs from the design built from scratch at cycle %d: %s vs %s (metadata "
+                  "differences of this design: %s)" % (h, s["cycle"], str(s["replaced"])[:300], str(s["fresh"])[:300],
+                                                      mk or "none"), rec, {"sim": s, "metadata": mk})
         elif s["kind"] == "raises":
             F.add("sim-raises:%s@%s" % (s["exc"], s["where"]),
                   "%s: simulating the mutated design raises %s in %s (%s); the design built from scratch simulates"
@@ -373,22 +401,48 @@ def judge(F, rec, tlc_verdict=None):
 # the check
 # --------------------------------------------------------------------------------------
 
+class _Locked:
+    """Result shared by the two family threads: every method call under one lock"""
+    def __init__(self, res):
+        self._r, self._l = res, threading.Lock()
+
+    def __getattr__(self, k):
+        a = getattr(self._r, k)
+        if not callable(a):
+            return a
+
+        def f(*x, **kw):
+            with self._l:
+                return a(*x, **kw)
+        return f
+
+
+# pymtl3 elaboration patches NamedObject.__setattr__ globally: designs are built by one thread at a time
+_PYMTL = threading.Lock()
+
+
 def run(res, tier):
     from common import scratch
     quick = tier == "quick"
-    R = rng("c15")
-    inputs = {"RTL": J.rtl_inputs(NCYC, R), "CL": [0] * NCYC}
+    inputs = {"RTL": J.rtl_inputs(NCYC, rng("c15-inputs")), "CL": [0] * NCYC}
     F = Findings()
-    rp = Replayer(inputs)
+    for f in ("RTL", "CL"):
+        J.family(f)
+    rp = Replayer(inputs)                    # fork the workers before any thread exists
+    lres = _Locked(res)
     try:
         with scratch() as sd:
-            for famname in ("RTL", "CL"):
-                _family(res, tier, famname, rp, F, R, sd)
-            _canaries(res, rp, R)
+            with ThreadPoolExecutor(max_workers=2) as ex:
+                futs = [ex.submit(_family, lres, tier, f, rp, F, rng("c15-" + f), sd) for f in ("RTL", "CL")]
+                for fu in futs:
+                    fu.result()
+            with phase("canaries"):
+                _canaries(res, rp, rng("c15-canaries"))
     finally:
         rp.close()
     F.flush(res)
     res.note("finding_occurrences", dict(F.count))
+    res.note("phase_wall_s", dict(_PHASES))
     res.note("rule", "spec->code: every path of the TLC history graph of every scenario (positions x palette x "
              "API call, bounded length, one or several uniform initial designs) is replayed on real designs; "
              "code->spec: random histories of length %d with an observation after every step; a case is one "
@@ -403,35 +457,45 @@ def run(res, tier):
 def _family(res, tier, famname, rp, F, R, sd):
     quick = tier == "quick"
     fam = J.family(famname)
+    ph = lambda n: phase("%s:%s" % (famname, n))  # noqa: E731
     extra = [{p: R.choice(list(fam.palette)) for p in fam.positions} for _ in range(6 if quick else 40)]
-    try:
-        model = J.extract_model(fam, extra)
-    except J.NotCompositional as e:
-        raise MachineryError("designs built from scratch are not compositional (%s): %s" % (famname, e))
+    with ph("extract-model"), _PYMTL:
+        try:
+            model = J.extract_model(fam, extra)
+        except J.NotCompositional as e:
+            raise MachineryError("designs built from scratch are not compositional (%s): %s" % (famname, e))
+        # ---- fresh designs against the derived views of the specification (and canary base)
+        fresh_cfgs = [{p: c for p in fam.positions} for c in fam.palette] + extra
+        ftr = []
+        for g in fresh_cfgs:
+            P, _ = J.project(fam.build(g))
+            o = _intern_obs(rp.table, J.observation(fam, P))
+            ftr.append({"init": g, "ev": [{"k": "Observe", "pos": "", "cls": "", "obs": o}]})
     res.note("model_json_bytes_" + famname, len(json.dumps(model)))
-    model_canaries(res, fam, model, sd)
 
-    # ---- fresh designs against the derived views of the specification (and canary base)
-    fresh_cfgs = [{p: c for p in fam.positions} for c in fam.palette] + extra
-    ftr = []
-    for g in fresh_cfgs:
-        P, _ = J.project(fam.build(g))
-        o = _intern_obs(rp.table, J.observation(fam, P))
-        ftr.append({"init": g, "ev": [{"k": "Observe", "pos": "", "cls": "", "obs": o}]})
-    vs = validate(res, fam, model, rp.table, ftr)
+    # ---- TLC on Replace.tla: model-level mutants, invariants and history graph of every scenario,
+    #      side by side (small models; the JVM start dominates)
+    scs = scenarios(tier, famname)
+    with ph("tlc-model"), ThreadPoolExecutor(max_workers=2 * len(scs) + 2) as ex:
+        fc = ex.submit(model_canaries, res, fam, model, sd)
+        fv = ex.submit(validate, res, fam, model, rp.table, ftr)
+        fm = [ex.submit(model_check, res, fam, model, sc, sd) for sc in scs]
+        fh = [ex.submit(histories_of, res, fam, model, sc, sd) for sc in scs]
+        fc.result()
+        vs = fv.result()
+        for f in fm:
+            f.result()
+        hss = [f.result() for f in fh]
     for t, (err, pos, cl) in zip(ftr, vs):
         if err != "ok":
             raise MachineryError("a freshly elaborated %s design %s differs from the derived views of Replace.tla: %s %s"
                                  % (famname, t["init"], err, sorted(cl)))
     res.count("fresh_designs_validated", len(ftr))
-    rp.fresh_traces = getattr(rp, "fresh_traces", {})
     rp.fresh_traces[famname] = (model, ftr)
 
     # ---- spec -> code: all histories of every scenario
     jobs, nid = [], 0
-    for sc in scenarios(tier, famname):
-        model_check(res, fam, model, sc, sd)
-        hs = histories_of(res, fam, model, sc, sd)
+    for sc, hs in zip(scs, hss):
         res.note("histories_%s_%s" % (famname, sc["name"]), len(hs))
         for (icfg, path) in hs:
             jobs.append(dict(id=nid, fam=famname, init=icfg, steps=path, check="last", sim=True))
@@ -440,7 +504,8 @@ def _family(res, tier, famname, rp, F, R, sd):
     for j in jobs:                                # scenarios overlap: replay a history once
         seen.setdefault((json.dumps(j["init"], sort_keys=True), json.dumps(j["steps"])), j)
     jobs = list(seen.values())
-    recs = rp.run(jobs)
+    with ph("replay"):
+        recs = rp.run(jobs)
     res.add_evals(sum(len(j["steps"]) for j in jobs))
     order = sorted(recs)
     traces = []
@@ -453,7 +518,8 @@ def _family(res, tier, famname, rp, F, R, sd):
             ev = ev[:r["raised"]["step"] - 1]
         traces.append({"init": r["init"], "ev": ev})
         res.distinct(("h", famname, json.dumps(r["init"], sort_keys=True), json.dumps(r["steps"])))
-    vs = validate(res, fam, model, rp.table, traces)
+    with ph("validate"):
+        vs = validate(res, fam, model, rp.table, traces)
     for i, v in zip(order, vs):
         judge(F, recs[i], v)
     res.count("spec_to_code_histories_replayed", len(jobs))
@@ -469,15 +535,17 @@ def _family(res, tier, famname, rp, F, R, sd):
         steps = [(R.choice(["Replace", "ReplaceWithObj"]), R.choice(fam.positions), R.choice(list(fam.palette)))
                  for _ in range(ln)]
         jobs.append(dict(id=("long", i), fam=famname, init=init, steps=steps, check="all", sim=True))
-    recs = rp.run(jobs, chunk=2)
+    with ph("random-replay"):
+        recs = rp.run(jobs, chunk=2)
     # simulation after every intermediate step needs an unmutated copy: replay the prefixes
     pjobs = []
     for i in range(n):
         r = recs[("long", i)]
         upto = (r["raised"]["step"] - 1) if r["raised"] else len(r["steps"]) - 1
         for k in range(1, upto + 1):
-            pjobs.append(dict(id=("prefix", i, k), fam=famname, init=r["init"], steps=r["steps"][:k], check="none", sim=True))
-    precs = rp.run(pjobs, chunk=8)
+            pjobs.append(dict(id=("prefix", i, k), fam=famname, init=r["init"], steps=r["steps"][:k], check="last", sim=True))
+    with ph("random-replay"):
+        precs = rp.run(pjobs, chunk=8)
     traces, order = [], []
     for i in range(n):
         r = recs[("long", i)]
@@ -496,7 +564,8 @@ def _family(res, tier, famname, rp, F, R, sd):
         traces.append({"init": r["init"], "ev": ev[:cut]})
         order.append(("long", i))
         res.distinct(("r", famname, i))
-    vs = validate(res, fam, model, rp.table, traces, batch=4)
+    with ph("random-validate"):
+        vs = validate(res, fam, model, rp.table, traces, batch=4)
     for key, t, v in zip(order, traces, vs):
         r = recs[key]
         err, pos, cl = v
@@ -650,8 +719,7 @@ def replay(obj):
     if "history" not in d:
         print(json.dumps(obj, indent=1))
         return 0
-    R = rng("c15")
-    inputs = {"RTL": J.rtl_inputs(NCYC, R), "CL": [0] * NCYC}
+    inputs = {"RTL": J.rtl_inputs(NCYC, rng("c15-inputs")), "CL": [0] * NCYC}
     rec = J.replay_history(d["family"], d["init"], [tuple(s) for s in d["history"]], inputs[d["family"]], check="all")
     for c in rec["checks"]:
         c.pop("obs", None)
